@@ -289,6 +289,29 @@ def check(ctx, form, sig, sample=False, fmt="dict", spacers=0):
                     h = h[:pos] + [None] + h[pos:]
                     rows = [r[:pos] + [None] + r[pos:] for r in rows]
                 sheets[nm] = (h, rows)
+    if form.meta.get("scatter_choices") and "choices" in sheets and len(form.choices) >= 1:
+        # a list's rows need not be adjacent on the choices sheet (an option appended at the bottom later, two lists maintained side by side):
+        # their order within the list is their order on the sheet
+        import random as _r
+        rr = _r.Random(form.meta["scatter_choices"])
+        h, rows = sheets["choices"]
+        by = {}
+        for r_ in rows:
+            by.setdefault(r_[0], []).append(r_)
+        if rr.random() < 0.5 and len(by) >= 2:
+            # interleave: round-robin over the lists
+            its = [list(v) for v in by.values()]
+            rows2 = []
+            while any(its):
+                for it in its:
+                    if it:
+                        rows2.append(it.pop(0))
+        else:
+            # the last option of the first list moved to the very bottom, after everything else
+            first = next(iter(by))
+            rows2 = [r_ for r_ in rows if not (r_[0] == first and r_ is by[first][-1])] + [by[first][-1]]
+        sheets["choices"] = (h, rows2)
+        ctx.ctr("scattered_choice_list_forms")
     o = drive.convert_sheets(sheets, fmt=fmt, args=form.args)
     if not o.ok:
         ctx.ctr("rejected")
@@ -470,6 +493,8 @@ def run_shard(ctx):
                 cells["constraint"] = ". != 'z'"
             form.survey.append(Row("q", "text", f"ex:nsq{i % 5}", cells))
             ctx.ctr("prefixed_name_forms")
+        if i % 5 == 3:
+            form.meta["scatter_choices"] = i + 1
         fmt, spacers = "dict", 0
         if i % 6 == 4:
             fmt = rng.choice(["csv", "xlsx", "xls", "csv"])
